@@ -25,6 +25,7 @@ type corrParams struct {
 	doneAt int    // invocation (1-based) at which the quorum function reports done; 0 = never
 	cancel bool
 	skip   []int // per-node skips
+	tail   bool  // streams: the handler returns (or fails) right after its last reply instead of waiting for the script
 }
 
 func (p corrParams) name() string {
@@ -35,6 +36,9 @@ func (p corrParams) name() string {
 		} else {
 			f += "R"
 		}
+	}
+	if p.tail {
+		f += "/ends-with-last-reply"
 	}
 	return fmt.Sprintf("corr/%s/n=%d/k=%d/%s/levels=%v/doneAt=%d/cancel=%v/skip=%v", p.kind, p.n, p.k, f, p.levels, p.doneAt, p.cancel, p.skip)
 }
@@ -59,7 +63,9 @@ func corrHistory(p corrParams) func() {
 						return world.Reply{Err: err}
 					}
 				}
-				w.Wait(fmt.Sprintf("n%d!", h.Node))
+				if !p.tail || p.k == 0 {
+					w.Wait(fmt.Sprintf("n%d!", h.Node))
+				}
 				if fails {
 					return world.Reply{Err: handlerError(h.Node)}
 				}
@@ -224,10 +230,14 @@ func corrHistory(p corrParams) func() {
 			default:
 				hist += fmt.Sprintf("%d", e.node)
 				w.Open(fmt.Sprintf("n%d#%d", e.node, e.idx))
+				streamEnds := false
 				if stream {
-					if e.idx+1 < p.k {
+					switch {
+					case e.idx+1 < p.k:
 						events = append(events, ev{e.node, e.idx + 1})
-					} else {
+					case p.tail:
+						streamEnds = true // the handler returns without waiting: the reply is followed by the end / error
+					default:
 						events = append(events, ev{e.node, -1})
 					}
 				}
@@ -248,6 +258,10 @@ func corrHistory(p corrParams) func() {
 					if done {
 						mDone = true
 					}
+				}
+				if streamEnds && p.fails[e.node-1] && !mDone {
+					errs++
+					answered++
 				}
 			}
 			if !mDone {
@@ -319,6 +333,10 @@ func corrInstances(tier string) []Instance {
 									bound = 2
 								}
 								out = append(out, Instance{Name: p.name(), Bound: bound, Root: corrHistory(p)})
+								if stream && k > 0 && !cancel && (thorough(tier) || tb.levels[1] == 2) {
+									p.tail = true
+									out = append(out, Instance{Name: p.name(), Bound: bound, Root: corrHistory(p)})
+								}
 							}
 						}
 					}
@@ -340,7 +358,7 @@ func corrInstances(tier string) []Instance {
 
 func init() {
 	register(&Check{ID: "C11",
-		Rule: "every history of one correctable call: {Correctable, CorrectableStream} x {plain, custom return type (+ per-node, combo in thorough)} x n in 1..2 x stream replies per node in 0..2 x failing subsets x 5 level tables (monotone, plateau, zero, non-monotone, constant) x done at {never, 1st, 2nd, 3rd invocation} x cancel; the script delivers replies / errors / stream ends / cancel one at a time in every order, keeps delivering after completion, and after every event observes typed Get, raw Get, Done, 4 earlier and 4 newly registered Watch levels; reference model of (published value by pointer, level, done, error); an outcome is (history, final level, done)",
+		Rule: "every history of one correctable call: {Correctable, CorrectableStream} x {plain, custom return type (+ per-node, combo in thorough)} x n in 1..2 x stream replies per node in 0..2 x failing subsets x 5 level tables (monotone, plateau, zero, non-monotone, constant) x done at {never, 1st, 2nd, 3rd invocation} x cancel x (streams) handler ends / fails on the script's signal or right after its last reply; the script delivers replies / errors / stream ends / cancel one at a time in every order, keeps delivering after completion, and after every event observes typed Get, raw Get, Done, 4 earlier and 4 newly registered Watch levels; reference model of (published value by pointer, level, done, error); an outcome is (history, final level, done)",
 		Gen:  corrInstances,
 		Assumptions: []string{
 			"level tables that report done with a level below an earlier one are not generated (the statement does not define the published level there)",
